@@ -151,6 +151,18 @@ func runC02(c *core.Ctx) *core.Violation {
 		}
 		version = 9
 		file, recs = rc.WriteRDB(9, []rc.Item{{Kind: "selectdb", DB: 0}, it}, plainChooser{}, true)
+	} else if !fl.known(rc.TZSet2) && t.Choose(4) == 3 {
+		// a value type the target does not know: RESTORE answers "Bad data format" and the fallback route runs
+		c.Sub = "unknown-type-fallback"
+		it := rc.Item{Kind: "key", Key: gen.KeyName(t, 0), Val: gen.ValueOf(t, rc.KZSet, 300), Type: rc.TZSet2}
+		switch t.Choose(3) {
+		case 1:
+			it.ExpireMs = uint64(epochMs+shiftMs) + 1000*uint64(1+t.Choose(1000)) + uint64(t.Choose(1000))
+		case 2:
+			it.ExpireMs = uint64(epochMs+shiftMs) - 1000*uint64(1+t.Choose(1000))
+		}
+		version = 9
+		file, recs = rc.WriteRDB(9, []rc.Item{{Kind: "selectdb", DB: 0}, it}, t, true)
 	} else {
 		for tries := 0; ; tries++ {
 			file, recs, version, _ = gen.RDB(t, opts)
